@@ -1076,8 +1076,11 @@ type GCReport struct {
 	GCErr      string
 	LocksAfter []string // locks with start ts <= safe point found in the store right after a successful GC
 	BelowErr   string   // error class of a read below the safe point ("" = served)
-	BelowSeq   []string // repeated reads of one snapshot / one transaction below the safe point: "<kind>(<key>)=<class>"
-	AtErr      string   // error of a read at the safe point
+	// BelowFaulty / MovedFaulty: a network fault was injected while that read ran (it may then fail for another reason)
+	BelowFaulty bool
+	MovedFaulty bool
+	BelowSeq    []string // repeated reads of one snapshot / one transaction below the safe point: "<kind>(<key>)=<class>"
+	AtErr       string   // error of a read at the safe point
 	// a read (get / batch get / scan, by the seed) at the safe point during which the store learns a greater safe point
 	MovedKind    string
 	MovedErr     string
@@ -1154,7 +1157,9 @@ func (w *World) runGC(plan *GCPlan) *GCReport {
 		// 3. snapshot reads below / at the cached transaction safe point
 		st.UpdateTxnSafePointCache(rep.SafePoint, time.Now())
 		if rep.SafePoint > 1 {
+			firedBefore := len(w.Net.Fired)
 			_, err := st.GetSnapshot(rep.SafePoint-1).Get(ctx, []byte("a"))
+			rep.BelowFaulty = len(w.Net.Fired) != firedBefore
 			if err != nil && !tikverr.IsErrNotFound(err) {
 				rep.BelowErr = classify(err)
 				if _, ok := errors.Cause(err).(*tikverr.ErrTxnAbortedByGC); ok {
@@ -1186,7 +1191,7 @@ func (w *World) runGC(plan *GCPlan) *GCReport {
 				}
 				c := "served"
 				if e != nil && !tikverr.IsErrNotFound(e) {
-					c = classify(e)
+					c = "failed:" + classify(e)
 					if _, ok := errors.Cause(e).(*tikverr.ErrTxnAbortedByGC); ok {
 						c = "aborted-by-gc"
 					}
@@ -1209,6 +1214,7 @@ func (w *World) runGC(plan *GCPlan) *GCReport {
 				learnedAt = w.Sim.Now()
 			}()
 			snap := st.GetSnapshot(rep.SafePoint)
+			firedMoved := len(w.Net.Fired)
 			switch rep.MovedKind {
 			case "get":
 				_, err = snap.Get(ctx, []byte("b"))
@@ -1221,6 +1227,7 @@ func (w *World) runGC(plan *GCPlan) *GCReport {
 				}
 			}
 			<-learned
+			rep.MovedFaulty = len(w.Net.Fired) != firedMoved
 			if err != nil && !tikverr.IsErrNotFound(err) {
 				rep.MovedErr = classify(err)
 				if _, ok := errors.Cause(err).(*tikverr.ErrTxnAbortedByGC); ok {
